@@ -1293,6 +1293,63 @@ def run(ctx):
                           "%r instead of being refused" % (reserved, out[1]))
     ctx.exhaustive[R] = True
 
+    # ------------------------------------------------- tag names vs members
+    R = "C07.tag_names_vs_members"
+    ctx.rule(R, "at vlevel 0 set() takes any string as the name of a new tag "
+             "and installs an instance attribute of that name: a name that "
+             "is already a member of the line (a read-only property, a "
+             "method, an instance variable such as _data) is refused with a "
+             "library error before that -- installing it raises "
+             "AttributeError (property without setter) or replaces the "
+             "member (unbounded recursion for _data)", floor=4)
+    from ..tables import Abs as _Abs, eval_function as _ef, Raised as _Raised
+    from ..linehooks import LineHooks as _LH
+    seg_cls = repo.cls("line.segment.GFA1")
+    f_set = ctx.anchor("Line.set", seg_cls.find_method("set"))
+    props = sorted(n for k in seg_cls.mro_classes()
+                   for n, m in k.methods.items()
+                   if m.kind == "property" and n not in k.setters and
+                   not n.startswith("_"))
+    meths = sorted(n for k in seg_cls.mro_classes()
+                   for n, m in k.methods.items()
+                   if m.kind == "method" and not n.startswith("_"))
+    if not props or not meths:
+        raise AnalysisError("anchor vanished: members of the segment class")
+    names = [(props[0], "read-only property"), (props[-1],
+                                                "read-only property"),
+             (meths[0], "method"), ("_data", "instance variable"),
+             ("_refs", "instance variable")]
+
+    class MemberHooks(_LH):
+        def before_inline(self, ev, func, args, kwargs):
+            if func.name == "_define_field_methods":
+                # what super().__setattr__(name, accessor) does
+                nm = args[1]
+                ev.events.append(("install", nm))
+                if nm in props:
+                    raise _Raised("builtins.AttributeError")
+                if nm in meths or nm in args[0].attrs:
+                    raise _Raised("builtins.RecursionError")
+                return None
+            return NotImplemented
+    for nm, what in names:
+        ctx.instance(R)
+        ln = _Abs(seg_cls, label="line", vlevel=0, _virtual=False,
+                  virtual=False, _gfa=None, _refs={},
+                  _data={"name": "A", "sequence": "*"}, _datatype={})
+        try:
+            out = _ef(repo, f_set, [ln, nm, "v"], hooks=MemberHooks(repo))
+        except Exception as e:      # an idiom the evaluator does not know
+            raise AnalysisError("C07.tag_names_vs_members: %s" % e)
+        ok = out[0] == "raise" and exc.error_root(repo) is not None and \
+            not str(out[1]).startswith("builtins.")
+        ctx.oblige(ok)
+        if not ok:
+            ctx.violation(R, f_set.short, "set(%r, v) at vlevel 0 (%s)" % (
+                nm, what), "outcome %r: the name must be refused with a "
+                "library error" % (out[0:2],))
+    ctx.exhaustive[R] = True
+
     # -------------------------------------------------------- total writer
     R = "C07.writer_is_total"
     ctx.rule(R, "str(line) and str(gfa) write a line whatever its fields "
